@@ -518,9 +518,13 @@ TrToolSumCheck == IsEv("tool.sumcheck") /\ LET ev == T[l]
 TrToolSumFault == IsEv("tool.sumfault") /\ LET ev == T[l] IN
   IF ev.tripped = 1 THEN Step(objs, <<TRUE, 0, 0>>, <<ev.exit # 0, ev.printed, ev.reported_ok>>)
   ELSE Step(objs, <<0, 1>>, <<ev.exit, IF ev.check = 1 THEN ev.reported_ok ELSE ev.printed>>)
+\* a read error on the checksum list itself: the tool must not exit 0 having looked at part of the list only
+TrToolSumListFault == IsEv("tool.sumlistfault") /\ LET ev == T[l] IN
+  IF ev.tripped = 1 THEN Step(objs, <<0, TRUE, 1>>, <<ev.gen_exit, ev.exit # 0, ev.stderr>>)
+  ELSE Step(objs, <<0, 0, ev.nfiles>>, <<ev.gen_exit, ev.exit, ev.nok>>)
 \* C12: any argument vector - no signal, no sanitizer report
 TrToolArgs == IsEv("tool.args") /\ LET ev == T[l] IN Step(objs, <<0, 0>>, <<ev.signaled, ev.sanitizer>>)
-ToolNext == TrToolCrypt \/ TrToolGenKey \/ TrToolSum \/ TrToolSumCheck \/ TrToolSumFault \/ TrToolArgs
+ToolNext == TrToolCrypt \/ TrToolGenKey \/ TrToolSum \/ TrToolSumCheck \/ TrToolSumFault \/ TrToolSumListFault \/ TrToolArgs
 
 -----------------------------------------------------------------------------
 (* C18: assembly back ends.  asm.permute: one call of a permutation entry  *)
